@@ -289,13 +289,14 @@ class C14(core.Property):
         "KVStore dict (kv_laws) and for every B-tree of order ≥ 3 satisfying the search-tree invariant (bt_laws, btOk_built)",
     ]
     partial_theorems = {
-        "abs_compact_partial": "proved: the merged payload of a compaction answers every key like a newest-first read through the "
-                               "source SSTables then the selected target SSTables. Not proved (abs_compact_full in Props.lean): that "
-                               "installing it (remove by identity, append, tombstone drop at the deepest level) leaves the abstract map "
-                               "unchanged; needs the invariants 'SSTables sorted', 'levels >= 1 key-disjoint', 'compactions exclusive'.",
-        "read_regular / deleted_stay_deleted / scan_sorted_live": "not proved over interleavings (read_regular_full in Props.lean is the statement); "
-                               "proved are the per-segment refinement steps abs_put, abs_delete, abs_flush_start, abs_flush_install, which hold for every "
-                               "state and hence every interleaving. The clause is checked on the implementation by the Lean Spec judge on every case.",
+        "read_regular (hypotheses, not gaps)": "read_regular / deleted_stay_deleted / scan_sorted_live are proved for the model over every schedule of "
+                               "segments (HappyModel.C14.read_regular: judgeOps of the model's own observations = none; read_regular_sem is the same in terms "
+                               "of the ghost log of memtable inserts) under explicit hypotheses: InOrder (flushes install in start order — every flush that "
+                               "installs belongs to the oldest frozen memtable; holds in the engine because every flush write costs one page), DistinctPuts "
+                               "(operation ids and put values pairwise distinct), 2 <= max_levels. abs_compact (install step of a compaction) is proved under "
+                               "CompactPre, and compactPre_run proves CompactPre for every suspended compaction of every run (SSTables sorted, levels >= 1 "
+                               "key-disjoint, one compaction in flight, tombstones dropped only at the deepest level). Not covered by a theorem: that the "
+                               "implementation runs the model's segments (checked by comparison on every case).",
         "btree_refines_map / serializable_commit_order over interleavings": "proved for every sequence of atomic actions (B-tree puts/deletes; "
                                "transaction begin/readStart/readFetch/write/commit/abort in any order). Not proved: that the *observations* of the segment "
                                "machines (stepS / stepT under an arbitrary schedule, with first/last segment indices) satisfy judgeStore / judgeTxn; the link "
@@ -460,6 +461,16 @@ THEOREMS = [
     "HappyModel.C14.abs_flush_start",
     "HappyModel.C14.abs_flush_install",
     "HappyModel.C14.abs_compact_partial",
+    "HappyModel.C14.abs_compact",
+    "HappyModel.C14.lsm_inv_run",
+    "HappyModel.C14.compactPre_run",
+    "HappyModel.C14.abs_compact_run",
+    "HappyModel.C14.compactions_exclusive",
+    "HappyModel.C14.abs_step",
+    "HappyModel.C14.abs_refines_log",
+    "HappyModel.C14.read_regular_sem",
+    "HappyModel.C14.judge_of_facts",
+    "HappyModel.C14.read_regular",
 ]
 C14.theorems = THEOREMS
 PROPERTY = C14()
